@@ -24,6 +24,7 @@ func init() {
 	harness.RegisterReplay("aacentry", harness.Replayer(checkAACEntry))
 	harness.RegisterReplay("adtsvariant", harness.Replayer(checkADTSVariant))
 	harness.RegisterReplay("aacentrybox", harness.Replayer(checkEntryBox))
+	harness.RegisterReplay("aacentrymulti", harness.Replayer(checkAACEntryMulti))
 	// development aid: VERIF_C18_NOAVOID=all or a comma-separated list of switch names
 	if v := os.Getenv("VERIF_C18_NOAVOID"); v == "all" {
 		avoidKnown = map[string]bool{}
@@ -666,6 +667,76 @@ func checkAACEntry(c entryCase) *harness.Fail {
 	return nil
 }
 
+// entryMultiCase: several audio tracks in ONE init segment, each given its own configuration with
+// SetAACDescriptor before anything is encoded (the history in which a sample entry built earlier must not
+// be disturbed by one built later); every track must decode back to its own configuration.
+type entryMultiCase struct {
+	Entries []entryCase
+}
+
+func wantEntryASC(c entryCase) ascCase {
+	want := ascCase{ObjectType: c.ObjectType, Freq: c.Freq, Channels: 2}
+	if c.ObjectType != 2 {
+		want.ExtFreq = 2 * c.Freq
+	}
+	if c.ObjectType == 29 {
+		want.Channels = 1
+	}
+	return want
+}
+
+func checkAACEntryMulti(c entryMultiCase) *harness.Fail {
+	init := mp4.CreateEmptyInit()
+	for i, e := range c.Entries {
+		init.AddEmptyTrack(uint32(e.Freq), "audio", "und")
+		trak := init.Moov.Traks[i]
+		if err := trak.SetAACDescriptor(e.ObjectType, e.Freq); err != nil {
+			return harness.Failf("C18|aacentry|set-error", "SetAACDescriptor(%d,%d): %v", e.ObjectType, e.Freq, err)
+		}
+	}
+	for round := 0; round < 2; round++ { // before and after an encode/decode
+		var traks []*mp4.TrakBox
+		if round == 0 {
+			traks = init.Moov.Traks
+		} else {
+			buf := bytes.Buffer{}
+			if err := init.Encode(&buf); err != nil {
+				return harness.Failf("C18|aacentry|encode-error", "%v", err)
+			}
+			f, err := mp4.DecodeFile(bytes.NewReader(buf.Bytes()))
+			if err != nil {
+				return harness.Failf("C18|aacentry|decode-error", "%v", err)
+			}
+			if f.Init == nil || f.Init.Moov == nil {
+				return harness.Failf("C18|aacentry|no-init", "decoded file has no init")
+			}
+			traks = f.Init.Moov.Traks
+		}
+		if len(traks) != len(c.Entries) {
+			return harness.Failf("C18|aacentry|track-count", "%d tracks, want %d", len(traks), len(c.Entries))
+		}
+		for i, e := range c.Entries {
+			stsd := traks[i].Mdia.Minf.Stbl.Stsd
+			if stsd.Mp4a == nil || stsd.Mp4a.Esds == nil || stsd.Mp4a.Esds.DecConfigDescriptor == nil || stsd.Mp4a.Esds.DecConfigDescriptor.DecSpecificInfo == nil {
+				return harness.Failf("C18|aacentry|no-mp4a-esds", "track %d: no mp4a/esds/decoder specific info", i)
+			}
+			dsi := stsd.Mp4a.Esds.DecConfigDescriptor.DecSpecificInfo
+			want := wantEntryASC(e)
+			got, err := aac.DecodeAudioSpecificConfig(bytes.NewReader(dsi.DecConfig))
+			if err != nil {
+				return harness.Failf("C18|aacentry|asc-decode-error", "track %d of %d (round %d) %x: %v", i, len(c.Entries), round, dsi.DecConfig, err)
+			}
+			if w := want.config(); *got != w {
+				return harness.Failf("C18|aacentry|config-mismatch", "track %d of %d (round %d) SetAACDescriptor(%d,%d): decoded config %+v, want %+v", i, len(c.Entries), round, e.ObjectType, e.Freq, *got, w)
+			}
+			if !bytes.Equal(dsi.DecConfig, refASC(want)) {
+				return harness.Failf("C18|aacentry|asc-bytes", "track %d: DecConfig %x, reference %x", i, dsi.DecConfig, refASC(want))
+			}
+		}
+	}
+	return nil
+}
+
 // checkEntryBox: an mp4a sample entry built around the reference AudioSpecificConfig bytes with the box
 // constructors, encoded and decoded as a box: the decoder specific info is carried unchanged and decodes
 // to the configuration.
@@ -738,6 +809,36 @@ func TestAACEntry(t *testing.T) {
 		}
 	}
 	harness.Rec.Exhaustive("AAC sample entry: {2,5,29} x 13 table frequencies + 10 explicit")
+	// several tracks in one init segment: every ordered pair of (object type, frequency), and for each pair a
+	// third entry chosen by rotation
+	var all []entryCase
+	for _, ot := range []byte{2, 5, 29} {
+		for _, f := range freqs {
+			all = append(all, entryCase{ot, f})
+		}
+	}
+	var nm int64
+	for i, a := range all {
+		for j, b := range all {
+			idx++
+			if idx%harness.E.NShards != harness.E.Shard {
+				continue
+			}
+			mc := entryMultiCase{Entries: []entryCase{a, b}}
+			if (i+j)%3 == 0 {
+				mc.Entries = append(mc.Entries, all[(i*7+j*13+5)%len(all)])
+			}
+			nm++
+			if harness.Rec.WantSample() && i == 3 && j == 40 {
+				harness.Rec.Sample(map[string]interface{}{"kind": "aacentrymulti", "case": mc})
+			}
+			if harness.ReportDirect(t, "aacentrymulti", mc, harness.Guarded(func() *harness.Fail { return checkAACEntryMulti(mc) })) {
+				return
+			}
+		}
+	}
+	harness.Rec.BulkDistinct(nm, nm, "aacentry-multitrack")
+	harness.Rec.Exhaustive("AAC sample entries of 2-3 audio tracks in one init segment: every ordered pair of ({2,5,29} x 23 frequencies)")
 	// every configuration of the TestASC boundary enumeration through the box constructors
 	bad := 0
 	var n [3]int64
